@@ -82,10 +82,12 @@ CHECKS = {
     "C10": dict(
         level="translation_validation", engine="equiv",
         technique="graph equivalence of the traced quantizer and the quantizer re-parsed from its own str() (term identity / relaxation / QF_BVFP miter); "
-                  "argument-text parsing compared with Python evaluation on an enumerated list",
+                  "safe_eval.GetArg executed on a z3 string (tokens <= 8 chars) against Python literal semantics; argument-list splitting compared with Python "
+                  "evaluation on an enumerated list",
         text="For every configuration of the option lattice str(q) is parsed back through the real get_quantizer/safe_eval and both objects "
              "are traced on one symbolic tensor: equality for every input is proved by term identity (or the exact miter), differences are "
-             "replayed.  The text->arguments direction is an auxiliary enumeration, not a solver verdict (pyparsing / CrossHair limits).",
+             "replayed.  In the text->arguments direction GetArg is executed symbolically on a bounded z3 string per literal class; the split of "
+             "an argument list into items is an auxiliary enumeration, not a solver verdict (pyparsing / CrossHair limits).",
         note="Only the str(q) direction is claimed at solver level.  21 (class, option) pairs whose printed form loses the option are known findings.",
         ref="DESIGN.md section 3 C10"),
     "C11": dict(
